@@ -770,9 +770,9 @@ val hexdigit : n -> byte
 
 val hex : byte list -> byte list
 
-val show_pos : slice -> byte list
+val show_pos_p : byte list -> slice -> byte list
 
-val render : sx -> byte list
+val render_p : byte list -> sx -> byte list
 
 val c : string -> sx list -> sx
 
@@ -782,7 +782,11 @@ val slist : ('a1 -> sx) -> 'a1 list -> sx
 
 val ekind_name : ekind -> byte list
 
+val show_at_p : byte list -> slice -> byte list
+
 val show_at : slice -> byte list
+
+val show_res_p : byte list -> ('a1 -> sx) -> 'a1 res -> byte list
 
 val show_res : ('a1 -> sx) -> 'a1 res -> byte list
 
@@ -1032,6 +1036,10 @@ val hs_body : hs_body_id -> n -> tlsMessageHandshake p
 val parse_tls_message_handshake : tlsMessage p
 
 val mAX_RECORD_LEN : n
+
+val mAX_RECORD_DATA : n
+
+val dEFRAG_DEBUG_ASSERT : bool
 
 val parse_tls_message_changecipherspec : tlsMessage p
 
@@ -1747,6 +1755,48 @@ val run_cipher_line : byte list list -> byte list
 val spec_sizes : cipher_row -> byte list
 
 val spec_cipher_line : byte list list -> byte list
+
+type defrag_state = { d_buf : byte list; d_cur : n option }
+
+val d_init : defrag_state
+
+val defrag_in_progress : defrag_state -> bool
+
+type dop =
+| OpParse of tlsRecordHeader * byte list
+| OpNoCopy of tlsRecordHeader * byte list
+| OpReset
+
+type region =
+| Caller
+| Buffer
+
+type dout = region * tlsMessage list res
+
+val empty_in : slice
+
+val is_complete_err : 'a1 res -> bool
+
+val map_complete : 'a1 res -> 'a1 res
+
+val nocopy :
+  defrag_state -> tlsRecordHeader -> byte list -> defrag_state * dout
+
+val parse_record :
+  bool -> defrag_state -> tlsRecordHeader -> byte list -> defrag_state * dout
+
+val step0 : bool -> defrag_state -> dop -> defrag_state * dout option
+
+val is_panic : dout option -> bool
+
+val run_ops :
+  bool -> defrag_state -> dop list -> (dout option * defrag_state) list
+
+val parse_dop : byte list -> dop
+
+val show_dout : dout option -> byte list
+
+val run_defrag_line : bool -> byte list list -> byte list
 
 val all_entries : (string * entry_fn) list
 
